@@ -1,5 +1,7 @@
 (** C02: -inline and -switch never change what the generated parser accepts or records. *)
-From PegV Require Import Base.Tac Spec.Syntax Spec.Peg Spec.WF Model.Machine Model.SkipCheck Model.Gen Proofs.Top Properties.Example.
+From PegV Require Import Base.Tac Spec.Syntax Spec.Peg Spec.WF Model.Machine Model.SkipCheck Model.Optimize Model.Gen
+  Proofs.FirstSound Proofs.OptSound Proofs.Top Proofs.OptTop Properties.Example.
+Local Open Scope nat_scope.
 
 (** For one grammar term [g] (the tree the generator compiles), every combination of the memo and
     inline decisions gives the same verdict, consumed prefix and token sequence, from any earlier
@@ -19,13 +21,71 @@ Theorem C02_inline_invisible :
 Proof. exact c02_inline_invisible. Qed.
 Print Assumptions C02_inline_invisible.
 
-(** Full statement for -switch, NOT yet proved here: the optimised tree has the same semantics as the
-    original one (first-set soundness + soundness of moving guarded alternatives into a switch).
-    Until then the equality "optimised tree = original tree" is decided by the correspondence run:
-    implementation under {-switch} vs implementation without, and both vs the model. *)
-Definition C02_switch_rewrite_statement : Prop :=
-  forall (optimise : grammar -> grammar) g ptx buf penv n r,
-    option_map fst (peg_parse (optimise g) ptx buf penv n r) = option_map fst (peg_parse g ptx buf penv n r).
+(** -switch, end to end.  [optimize] (Model/Optimize.v) is the -switch pass - first-character-set
+    analysis to a fixed point, then the rewrite of ordered choices into guarded (switch) choices for
+    the rules reachable from the first - and is compared structurally with the implementation's
+    optimised tree for every grammar of the correspondence run.  For every grammar with a
+    well-formedness certificate (wf_b: Ford's condition), whose analysis table is consistent
+    (opt_ok_b, executable, re-evaluated per grammar), every input made of code points and every rule
+    used as entry: the parser generated from the optimised tree and the one generated from the
+    original tree, under any memo and inline decisions and from any earlier parser states, both
+    terminate with the same verdict, consumed prefix and token sequence.  [good_switches (optimize g)]
+    (executable) says that the case bodies may drop their first-character tests. *)
+Theorem C02_switch_invisible :
+  forall g tab rank, wf_b g tab rank = true -> opt_ok_b g = true ->
+  good_grammar g -> good_grammar (optimize g) -> good_switches g -> good_switches (optimize g) ->
+  forall ptx buf penv, good_buf buf -> valid_buf buf ->
+  forall memo memo' inline inline' r rb st0 st0',
+    nth_error g r = Some rb -> rb <> RNil ->
+    slot_ok g inline r -> slot_ok (optimize g) inline' r ->
+    exists n b st1 st2,
+      machine g ptx buf penv memo inline n r st0 = Some (Ret b st1) /\
+      machine (optimize g) ptx buf penv memo' inline' n r st0' = Some (Ret b st2) /\
+      (b = true -> pos st1 = pos st2 /\ Machine.live st1 = Machine.live st2).
+Proof. exact c02_switch_invisible. Qed.
+Print Assumptions C02_switch_invisible.
+
+(** the semantic core of it: the optimised tree has exactly the results (verdict, prefix, forest) of
+    the original one, in both directions *)
+Theorem C02_rewrite_sound :
+  forall g tab rank, wf_b g tab rank = true -> opt_ok_b g = true ->
+  forall ptx buf penv, valid_buf buf ->
+  (forall r n x, peg_parse g ptx buf penv n r = Some x ->
+     exists m evs', peg_parse (optimize g) ptx buf penv m r = Some (fst x, evs')) /\
+  (forall r m y, peg_parse (optimize g) ptx buf penv m r = Some y ->
+     exists n evs, peg_parse g ptx buf penv n r = Some (fst y, evs)).
+Proof.
+  intros g tab rank Hwf Hopt ptx buf penv Hb. split.
+  - exact (optimize_sound g tab rank Hwf Hopt ptx buf penv Hb).
+  - exact (optimize_complete g tab rank Hwf Hopt ptx buf penv Hb).
+Qed.
+Print Assumptions C02_rewrite_sound.
+
+(** the first-set analysis on its own: with a consistent table, an expression that succeeds having
+    consumed did so on a character of its set, and a "must consume" expression never succeeds empty *)
+Theorem C02_first_sets_sound :
+  forall g T, t_ok_b g T = true -> forall ptx buf penv, (forall c, In c buf -> (0 <= c <= maxRune)%Z) ->
+  forall n e, ranges_ok e = true -> fs_ok g ptx buf penv (fs T e) n e.
+Proof. exact first_sound. Qed.
+Print Assumptions C02_first_sets_sound.
+
+(** non-vacuity: a grammar that the pass really rewrites (one ordered alternative kept in front of a
+    three-way switch), with all side conditions true, parsed identically before and after *)
+Definition opt_g : grammar :=
+  [ RBody (ESeq [EName 1; ENot EDot]);
+    RBody (EAlt [ESeq [EChar 97; EChar 120]; ESeq [EChar 97; EChar 121]; ESeq [ERange 98 99; EChar 121];
+                 ESeq [EChar 100; EChar 122]; EPlus (EChar 101)]) ]%Z.
+Example C02_switch_nonvacuous :
+  wf_auto opt_g = true /\ opt_ok_b opt_g = true /\
+  good_grammar_b opt_g = true /\ good_grammar_b (optimize opt_g) = true /\
+  good_switches_b opt_g = true /\ good_switches_b (optimize opt_g) = true /\
+  valid_buf_b [97; 121]%Z = true /\
+  optimize opt_g <> opt_g /\
+  verdict_of (peg_parse opt_g 9 [97; 121]%Z (std_penv [97; 121]%Z) 30 0) = Some (Some 2) /\
+  verdict_of (peg_parse (optimize opt_g) 9 [97; 121]%Z (std_penv [97; 121]%Z) 30 0) = Some (Some 2) /\
+  mach_view (machine (optimize opt_g) 9 [97; 121]%Z (std_penv [97; 121]%Z) true false 30 0 zero_state) =
+  mach_view (machine opt_g 9 [97; 121]%Z (std_penv [97; 121]%Z) true false 30 0 zero_state).
+Proof. vm_compute. repeat split; try reflexivity. discriminate. Qed.
 
 (** non-vacuity: a tree with a well-guarded switch, run with a skip-check flag *)
 Definition sw_g : grammar :=
